@@ -1,1 +1,1479 @@
+(* Proofs for property C10: the model of wcoll.c / opt.c (Args/WcollFile.v, Args/Assemble.v) meets the
+   specification Args/WcollSpec.v, for every file system, every line length and every include graph. *)
 From PV Require Import Args.WcollSpec.
+Local Open Scope N_scope.
+
+(* ------------------------------------------------------------------------------------------------ *)
+(* generic list facts                                                                                 *)
+(* ------------------------------------------------------------------------------------------------ *)
+Lemma lookup_In fs p c : lookup fs p = Some c -> In (p, c) fs.
+Proof.
+  induction fs as [|[q d] r IH]; cbn [lookup]; [discriminate|].
+  destruct (beq p q) eqn:E.
+  - intro H; inversion H; subst. apply beq_eq in E; subst. left; reflexivity.
+  - intro H; right; auto.
+Qed.
+
+Lemma existsb_beq_In p l : existsb (beq p) l = true <-> In p l.
+Proof.
+  rewrite existsb_exists. split.
+  - intros (x & Hx & E). apply beq_eq in E; subst; auto.
+  - intro H. exists p; split; auto. apply beq_refl.
+Qed.
+Lemma existsb_beq_nIn p l : existsb (beq p) l = false <-> ~ In p l.
+Proof.
+  split; intro H.
+  - intro Hin. apply existsb_beq_In in Hin. congruence.
+  - destruct (existsb (beq p) l) eqn:E; auto. apply existsb_beq_In in E. contradiction.
+Qed.
+
+Lemma take_while_forallb p s : forallb p (take_while p s) = true.
+Proof. induction s as [|x r IH]; cbn; auto. destruct (p x) eqn:E; cbn; auto. rewrite E; auto. Qed.
+Lemma drop_while_head p s x r : drop_while p s = x :: r -> p x = false.
+Proof.
+  induction s as [|y t IH]; cbn; [discriminate|]. destruct (p y) eqn:E; auto.
+  intro H; inversion H; subst; auto.
+Qed.
+Lemma drop_while_sub (p q : N -> bool) s :
+  (forall x, p x = true -> q x = true) -> drop_while q (drop_while p s) = drop_while q s.
+Proof.
+  intro H. induction s as [|x r IH]; cbn; auto.
+  destruct (p x) eqn:E.
+  - rewrite (H _ E). auto.
+  - cbn. reflexivity.
+Qed.
+Lemma drop_while_app_all p a b : forallb p a = true -> drop_while p (a ++ b) = drop_while p b.
+Proof. induction a as [|x a IH]; cbn; auto. intro H. apply andb_true_iff in H as [H1 H2]. rewrite H1; auto. Qed.
+Lemma take_while_app_all p a b : forallb p a = true -> take_while p (a ++ b) = a ++ take_while p b.
+Proof. induction a as [|x a IH]; cbn; auto. intro H. apply andb_true_iff in H as [H1 H2]. rewrite H1, IH; auto. Qed.
+Lemma drop_while_nil_forallb p s : drop_while p s = [] -> forallb p s = true.
+Proof. induction s as [|x r IH]; cbn; auto. destruct (p x); [auto|discriminate]. Qed.
+Lemma forallb_drop_while p s : forallb p s = true -> drop_while p s = [].
+Proof. apply drop_while_all. Qed.
+Lemma forallb_ext_in (p q : N -> bool) s : (forall x, In x s -> p x = q x) -> forallb p s = forallb q s.
+Proof. induction s as [|x r IH]; cbn; auto. intro H. rewrite (H x) by (left; auto). rewrite IH; auto. Qed.
+Lemma drop_while_ext_in (p q : N -> bool) s : (forall x, In x s -> p x = q x) -> drop_while p s = drop_while q s.
+Proof. induction s as [|x r IH]; cbn; auto. intro H. rewrite (H x) by (left; auto). destruct (q x); auto. Qed.
+
+Lemma index_split c s :
+  split_at c s = match index_of c s with Some k => (firstn k s, Some (skipn (S k) s)) | None => (s, None) end.
+Proof.
+  induction s as [|x r IH]; cbn [split_at index_of]; auto.
+  destruct (x =? c); [reflexivity|]. rewrite IH. destruct (index_of c r); reflexivity.
+Qed.
+Lemma index_of_none c s : index_of c s = None <-> ~ In c s.
+Proof.
+  induction s as [|x r IH]; cbn [index_of]; [tauto|].
+  destruct (x =? c) eqn:E.
+  - apply N.eqb_eq in E; subst. split; [discriminate|]. intro H; exfalso; apply H; left; auto.
+  - apply N.eqb_neq in E. destruct (index_of c r) eqn:F.
+    + split; [discriminate|]. intro H. exfalso. assert (~ In c r) by (intro; apply H; right; auto).
+      apply IH in H0. discriminate.
+    + split; auto. intros _ [H|H]; [congruence|]. apply IH in H; auto.
+Qed.
+Lemma index_of_firstn_app c s t k : index_of c s = Some k -> firstn k (s ++ t) = firstn k s.
+Proof.
+  revert k; induction s as [|x r IH]; cbn [index_of]; [discriminate|]. intro k.
+  destruct (x =? c); [intro H; inversion H; reflexivity|].
+  destruct (index_of c r) eqn:F; [|discriminate]. intro H; inversion H; subst. cbn. f_equal. auto.
+Qed.
+Lemma index_of_app_l c s t k : index_of c s = Some k -> index_of c (s ++ t) = Some k.
+Proof.
+  revert k; induction s as [|x r IH]; cbn [index_of app]; [discriminate|]. intro k.
+  destruct (x =? c); auto. destruct (index_of c r) eqn:F; [|discriminate].
+  intro H; inversion H; subst. rewrite (IH n); auto.
+Qed.
+Lemma index_of_app_r c s x : ~ In c s -> x <> c -> index_of c (s ++ [x]) = None.
+Proof.
+  intros H1 H2. apply index_of_none. intro H. apply in_app_or in H as [H|[H|[]]]; auto.
+Qed.
+
+(* ------------------------------------------------------------------------------------------------ *)
+(* getline buffers and text lines                                                                     *)
+(* ------------------------------------------------------------------------------------------------ *)
+(* a getline buffer and the line it holds *)
+Definition bufline (buf l : bytes) : Prop := (buf = l ++ [10] \/ buf = l) /\ ~ In 10 l.
+
+Definition prefix_first (a : bytes) (ps : list bytes) : list bytes :=
+  match ps with p :: r => (a ++ p) :: r | [] => [a] end.
+Definition drop_last_empty (ps : list bytes) : list bytes :=
+  match last ps [1] with [] => removelast ps | _ => ps end.
+
+Lemma drop_last_empty_cons x ps : ps <> [] -> drop_last_empty (x :: ps) = x :: drop_last_empty ps.
+Proof.
+  intro H. unfold drop_last_empty. destruct ps as [|y r]; [congruence|].
+  change (last (x :: y :: r) [1]) with (last (y :: r) [1]).
+  destruct (last (y :: r) [1]); [|reflexivity].
+  change (removelast (x :: y :: r)) with (x :: removelast (y :: r)). reflexivity.
+Qed.
+
+Lemma lines_acc_spec s : forall cur, ~ In 10 cur ->
+  Forall2 bufline (lines_acc s cur) (drop_last_empty (prefix_first (rev cur) (split_all 10 s))).
+Proof.
+  induction s as [|b r IH]; intros cur Hc.
+  - cbn [lines_acc split_all prefix_first]. rewrite app_nil_r.
+    destruct cur as [|x cur'].
+    + cbn. constructor.
+    + unfold drop_last_empty. cbn [last]. destruct (rev (x :: cur')) eqn:E.
+      * apply (f_equal (@length _)) in E. rewrite rev_length in E. discriminate.
+      * rewrite <- E. constructor; [|constructor]. split; [right; reflexivity|].
+        rewrite <- in_rev. exact Hc.
+  - cbn [lines_acc split_all]. destruct (b =? 10) eqn:E.
+    + apply N.eqb_eq in E; subst b. cbn [prefix_first]. rewrite app_nil_r.
+      rewrite drop_last_empty_cons by apply split_all_nonempty.
+      constructor.
+      * split; [left; reflexivity| rewrite <- in_rev; exact Hc].
+      * specialize (IH [] (fun H => H)). cbn [rev] in IH.
+        destruct (split_all 10 r) as [|p ps] eqn:F; [exfalso; eapply split_all_nonempty; eauto|].
+        cbn [prefix_first app] in IH. exact IH.
+    + apply N.eqb_neq in E.
+      assert (Hc' : ~ In 10 (b :: cur)) by (intros [H|H]; [congruence|auto]).
+      specialize (IH (b :: cur) Hc').
+      destruct (split_all 10 r) as [|p ps] eqn:F; [exfalso; eapply split_all_nonempty; eauto|].
+      cbn [prefix_first rev] in *. rewrite <- app_assoc in IH. exact IH.
+Qed.
+
+Lemma file_lines_text_lines c : Forall2 bufline (file_lines c) (text_lines c).
+Proof.
+  unfold file_lines, text_lines. pose proof (lines_acc_spec c [] (fun H => H)) as H.
+  cbn [rev] in H. destruct (split_all 10 c) as [|p ps] eqn:F; [exfalso; eapply split_all_nonempty; eauto|].
+  cbn [prefix_first app] in H. exact H.
+Qed.
+
+(* ------------------------------------------------------------------------------------------------ *)
+(* one line: the code's tokenizer against the directive of the specification                          *)
+(* ------------------------------------------------------------------------------------------------ *)
+Definition nonsep (b : N) : bool := negb (dsep b).
+
+Lemma is_tok_sep_dsep b : is_tok_sep b = dsep b.
+Proof. unfold is_tok_sep, dsep. destruct (b =? 10), (b =? 13), (b =? 9), (b =? 32); reflexivity. Qed.
+Lemma blank_dsep b : is_blank b = true -> dsep b = true.
+Proof. unfold is_blank, dsep. destruct (b =? 32), (b =? 9); cbn; auto; discriminate. Qed.
+
+Definition tokenize (x : bytes) : option bytes :=
+  let p1 := drop_while dsep x in
+  let tok := take_while nonsep p1 in
+  let rest := drop_while dsep (drop_while nonsep p1) in
+  match tok, rest with [], _ => None | _, [] => Some tok | _, _ => None end.
+
+Lemma include_file_eq line :
+  include_file line = if is_prefix kw line then Some (tokenize (skipn 8 line)) else None.
+Proof.
+  unfold include_file, tokenize. change kw_include with kw. destruct (is_prefix kw line); [|reflexivity].
+  assert (E1 : forall s, drop_while is_tok_sep s = drop_while dsep s)
+    by (intro s; apply drop_while_ext_in; intros; apply is_tok_sep_dsep).
+  assert (E2 : forall s, drop_while (fun b => negb (is_tok_sep b)) s = drop_while nonsep s)
+    by (intro s; apply drop_while_ext_in; intros; unfold nonsep; rewrite is_tok_sep_dsep; reflexivity).
+  assert (E3 : forall s, take_while (fun b => negb (is_tok_sep b)) s = take_while nonsep s).
+  { intro s. induction s as [|x r IH]; cbn; auto. unfold nonsep at 1. rewrite is_tok_sep_dsep.
+    destruct (negb (dsep x)); congruence. }
+  rewrite !E1, E2, E3.
+  rewrite (drop_while_sub is_blank dsep) by apply blank_dsep.
+  destruct (take_while nonsep (drop_while dsep (skipn 8 line))); [reflexivity|].
+  destruct (drop_while dsep (drop_while nonsep (drop_while dsep (skipn 8 line)))); reflexivity.
+Qed.
+
+Lemma tokenize_sound x g : tokenize x = Some g ->
+  exists pre post, x = pre ++ g ++ post /\ forallb dsep pre = true /\ forallb dsep post = true /\
+                   g <> [] /\ forallb nonsep g = true.
+Proof.
+  unfold tokenize. set (p1 := drop_while dsep x).
+  destruct (take_while nonsep p1) as [|t ts] eqn:Et; [discriminate|].
+  destruct (drop_while dsep (drop_while nonsep p1)) eqn:Er; [|discriminate].
+  intro H; inversion H; subst g. exists (take_while dsep x), (drop_while nonsep p1).
+  rewrite <- Et. repeat split.
+  - rewrite (take_drop_while nonsep p1). unfold p1. symmetry. apply take_drop_while.
+  - apply take_while_forallb.
+  - apply drop_while_nil_forallb; auto.
+  - rewrite Et; discriminate.
+  - apply take_while_forallb.
+Qed.
+
+Lemma tokenize_complete pre g post :
+  forallb dsep pre = true -> forallb dsep post = true -> g <> [] -> forallb nonsep g = true ->
+  tokenize (pre ++ g ++ post) = Some g.
+Proof.
+  intros Hpre Hpost Hg Hn. unfold tokenize.
+  destruct g as [|y g']; [congruence|].
+  assert (Hy : dsep y = false).
+  { cbn in Hn. apply andb_true_iff in Hn as [Hn _]. unfold nonsep in Hn. destruct (dsep y); auto; discriminate. }
+  assert (E1 : drop_while dsep (pre ++ (y :: g') ++ post) = (y :: g') ++ post).
+  { change ((y :: g') ++ post) with (y :: (g' ++ post)). apply drop_while_app_stop; auto. }
+  rewrite E1.
+  assert (E2 : take_while nonsep ((y :: g') ++ post) = y :: g' /\ drop_while nonsep ((y :: g') ++ post) = post).
+  { destruct post as [|z post'].
+    - rewrite app_nil_r. split; [apply take_while_all|apply drop_while_all]; auto.
+    - assert (Hz : nonsep z = false).
+      { cbn in Hpost. apply andb_true_iff in Hpost as [Hz _]. unfold nonsep. rewrite Hz. reflexivity. }
+      split; [apply take_while_app_stop|apply drop_while_app_stop]; auto. }
+  destruct E2 as [E2 E3]. rewrite E2, E3. rewrite (drop_while_all dsep post Hpost). reflexivity.
+Qed.
+
+Lemma directive_unique l g1 g2 : directive l g1 -> directive l g2 -> g1 = g2.
+Proof.
+  intros (pre1 & post1 & E1 & A1 & B1 & C1 & D1) (pre2 & post2 & E2 & A2 & B2 & C2 & D2).
+  assert (H1 := tokenize_complete pre1 g1 post1 A1 B1 C1 D1).
+  assert (H2 := tokenize_complete pre2 g2 post2 A2 B2 C2 D2).
+  rewrite E1 in E2. apply app_inv_head in E2. rewrite E2 in H1. congruence.
+Qed.
+
+Lemma directive_prefix l g : directive l g -> is_prefix kw l = true.
+Proof. intros (pre & post & E & _). subst. apply is_prefix_app. Qed.
+
+Lemma include_file_directive line g : include_file line = Some (Some g) <-> directive line g.
+Proof.
+  rewrite include_file_eq. split.
+  - destruct (is_prefix kw line) eqn:E; [|discriminate]. intro H. inversion H as [H1].
+    apply is_prefix_spec in E as (r & ->).
+    change (tokenize r = Some g) in H1.
+    apply tokenize_sound in H1 as (pre & post & -> & A & B & C & D). exists pre, post. auto.
+  - intros (pre & post & -> & A & B & C & D). rewrite is_prefix_app.
+    assert (Es : skipn 8 (kw ++ pre ++ g ++ post) = pre ++ g ++ post) by reflexivity. rewrite Es.
+    rewrite tokenize_complete; auto.
+Qed.
+
+Lemma directive_nl l g : directive l g -> directive (l ++ [10]) g.
+Proof.
+  intros (pre & post & -> & A & B & C & D). exists pre, (post ++ [10]). repeat split; auto.
+  - rewrite <- !app_assoc. reflexivity.
+  - rewrite forallb_app, B. reflexivity.
+Qed.
+
+Lemma directive_chomp l g : directive (l ++ [10]) g -> directive l g.
+Proof.
+  intros (pre & post & E & A & B & C & D).
+  destruct post as [|p0 ps].
+  - rewrite app_nil_r in E. destruct (exists_last C) as (g' & z & ->).
+    rewrite !app_assoc in E. apply app_inj_tail in E as [_ <-].
+    rewrite forallb_app in D. apply andb_true_iff in D as [_ D]. cbn in D. discriminate.
+  - assert (Hne : p0 :: ps <> []) by discriminate.
+    destruct (exists_last Hne) as (post' & z & Ep). rewrite Ep in *.
+    rewrite !app_assoc in E. apply app_inj_tail in E as [E <-].
+    exists pre, post'. rewrite forallb_app in B. apply andb_true_iff in B as [B _].
+    repeat split; auto. rewrite E, <- !app_assoc. reflexivity.
+Qed.
+
+(* ---- xstrcln against trim ---- *)
+Lemma In_drop_while p s x : In x (drop_while p s) -> In x s.
+Proof. induction s as [|y r IH]; cbn; auto. destruct (p y); auto. Qed.
+Lemma In_firstn {A} (x : A) k s : In x (firstn k s) -> In x s.
+Proof. revert s; induction k; intros [|y r]; cbn; try tauto. intros [H|H]; auto. Qed.
+Lemma drop_while_app_ne p a b : drop_while p a <> [] -> drop_while p (a ++ b) = drop_while p a ++ b.
+Proof. induction a as [|x a IH]; cbn; [congruence|]. destruct (p x); auto. Qed.
+
+Lemma sp_blank x : x <> 10 -> is_sp x = blank x.
+Proof. intro H. unfold is_sp, blank. apply N.eqb_neq in H. rewrite H. cbn. apply orb_comm. Qed.
+
+Lemma strip_trim l : ~ In 10 l -> strip l = trim l.
+Proof.
+  intro H. unfold strip, trim.
+  assert (E1 : drop_while is_sp l = drop_while blank l).
+  { apply drop_while_ext_in. intros x Hx. apply sp_blank. intro; subst; auto. }
+  rewrite E1. f_equal. apply drop_while_ext_in. intros x Hx. apply sp_blank. intro; subst.
+  apply in_rev in Hx. apply In_drop_while in Hx. auto.
+Qed.
+
+Lemma strip_nl l : strip (l ++ [10]) = strip l.
+Proof.
+  unfold strip. destruct (drop_while is_sp l) eqn:E.
+  - apply drop_while_nil_forallb in E. rewrite drop_while_app_all by auto. reflexivity.
+  - rewrite drop_while_app_ne by (rewrite E; discriminate). rewrite E.
+    rewrite rev_app_distr. cbn [rev app]. reflexivity.
+Qed.
+
+Lemma cstr_id s : ~ In 0 s -> cstr s = s.
+Proof.
+  intro H. unfold cstr. apply take_while_all. apply forallb_forall. intros x Hx.
+  destruct (x =? 0) eqn:E; auto. apply N.eqb_eq in E; subst. contradiction.
+Qed.
+
+Lemma cut_comment buf l : bufline buf l ->
+  strip (match index_of 35 buf with Some k => firstn k buf | None => buf end) = entry l.
+Proof.
+  intros [[->| ->] Hnl]; unfold entry; rewrite index_split.
+  - destruct (index_of 35 l) as [k|] eqn:E.
+    + rewrite (index_of_app_l _ _ _ _ E), (index_of_firstn_app _ _ _ _ E). cbn [fst].
+      apply strip_trim. intro H. apply In_firstn in H. auto.
+    + apply index_of_none in E. rewrite index_of_app_r by (auto; discriminate). cbn [fst].
+      rewrite strip_nl. apply strip_trim; auto.
+  - destruct (index_of 35 l) as [k|] eqn:E; cbn [fst]; apply strip_trim; auto.
+    intro H. apply In_firstn in H. auto.
+Qed.
+
+(* ------------------------------------------------------------------------------------------------ *)
+(* unfolding the reader                                                                               *)
+(* ------------------------------------------------------------------------------------------------ *)
+Definition nested_of (fs : fsys) (dir : bytes) (fuel : nat) : list bytes -> list bytes -> rres :=
+  match fuel with O => fun _ _ => RDiverges | S f => read_lines fs dir f end.
+Lemma read_lines_nil fs dir fuel cache : read_lines fs dir fuel [] cache = ROk [] cache 0.
+Proof. destruct fuel; reflexivity. Qed.
+Lemma read_lines_cons fs dir fuel b bs cache :
+  read_lines fs dir fuel (b :: bs) cache =
+  then_result (line_result fs dir (nested_of fs dir fuel) cache b) (read_lines fs dir fuel bs).
+Proof. destruct fuel; reflexivity. Qed.
+
+Lemma line_okb_spec l : line_okb l = true ->
+  ~ In 0 l /\ (is_prefix kw l = true -> (length l < 4095)%nat).
+Proof.
+  unfold line_okb. intro H. apply andb_true_iff in H as [H1 H2]. split.
+  - intro Hin. apply mem_In in Hin. rewrite Hin in H1. discriminate.
+  - intro Hp. rewrite Hp in H2. cbn in H2. apply N.ltb_lt in H2. lia.
+Qed.
+
+Lemma hash_prefix s : is_prefix [35] s = true <-> hd 0 s = 35.
+Proof.
+  destruct s as [|x r]; cbn [is_prefix hd]; [split; [discriminate|intro H; discriminate]|].
+  rewrite andb_true_r. rewrite N.eqb_eq. split; intro; subst; auto.
+Qed.
+Lemma kw_prefix_hash l : is_prefix kw l = true -> hd 0 l = 35.
+Proof. intro H. apply is_prefix_spec in H as (r & ->). reflexivity. Qed.
+
+Lemma kw_prefix_chomp l : is_prefix kw (l ++ [10]) = is_prefix kw l.
+Proof.
+  destruct (is_prefix kw l) eqn:E.
+  - apply is_prefix_spec in E as (r & ->). rewrite <- app_assoc. apply is_prefix_app.
+  - destruct (is_prefix kw (l ++ [10])) eqn:F; auto.
+    apply is_prefix_spec in F as (r & F).
+    destruct r as [|r0 rs].
+    + rewrite app_nil_r in F. change kw with ([35;105;110;99;108;117;100] ++ [101]) in F.
+      apply app_inj_tail in F as [_ F]. discriminate.
+    + assert (Hne : r0 :: rs <> []) by discriminate.
+      destruct (exists_last Hne) as (r' & z & Er). rewrite Er in F.
+      rewrite app_assoc in F. apply app_inj_tail in F as [F _]. subst l.
+      rewrite is_prefix_app in E. discriminate.
+Qed.
+
+Section Sound.
+Variable fs : fsys.
+Variable dir : bytes.
+Hypothesis HD : D10 fs = true.
+
+Definition readable (p : bytes) : Prop := lookup fs p <> None.
+
+Lemma D10_lookup p c : lookup fs p = Some c -> (length p < 4096)%nat /\ text_okb c = true.
+Proof.
+  intro H. apply lookup_In in H. unfold D10 in HD. rewrite forallb_forall in HD.
+  specialize (HD _ H). cbn [fst snd] in HD. apply andb_true_iff in HD as [H1 H2].
+  apply N.ltb_lt in H1. split; [lia|auto].
+Qed.
+
+Lemma line_action_sound buf l : bufline buf l -> line_okb l = true ->
+  match line_action fs dir buf with
+  | LExpr eo => line_kind l (Gives (match eo with Some e => [e] | None => [] end) 0)
+  | LWarn => line_kind l (Gives [] 1)
+  | LInclude path => exists g, line_kind l (Includes g) /\ path = locate dir g /\ (as_is g = false -> readable path)
+  | LFatal => exists g, line_kind l (Includes g) /\ as_is g = false /\ lookup fs (locate dir g) = None
+  | LFault => False
+  end.
+Proof.
+  intros Hb Hok. apply line_okb_spec in Hok as [Hnul Hshort].
+  assert (Hnul' : ~ In 0 buf).
+  { destruct Hb as [[->| ->] _]; auto. intro H. apply in_app_or in H as [H|[H|[]]]; [auto|discriminate]. }
+  unfold line_action. rewrite (cstr_id _ Hnul').
+  assert (Ehash : is_prefix [35] buf = is_prefix [35] l).
+  { destruct Hb as [[->| ->] _]; auto. destruct l; reflexivity. }
+  assert (Ekw : is_prefix kw buf = is_prefix kw l).
+  { destruct Hb as [[->| ->] _]; auto. apply kw_prefix_chomp. }
+  assert (Edir : forall g, directive buf g <-> directive l g).
+  { intro g. destruct Hb as [[->| ->] _]; [|tauto]. split; [apply directive_chomp|apply directive_nl]. }
+  rewrite Ehash. destruct (is_prefix [35] l) eqn:Eh.
+  - apply hash_prefix in Eh.
+    destruct (include_file buf) as [[g|]|] eqn:Ei.
+    + apply include_file_directive in Ei. apply Edir in Ei.
+      assert (Hlen : (length g < 4095)%nat).
+      { specialize (Hshort (directive_prefix _ _ Ei)).
+        destruct Ei as (pre & post & -> & _). rewrite !app_length in Hshort. lia. }
+      unfold resolve. change (as_is g) with (taken_as_is g).
+      destruct (taken_as_is g) eqn:Ea.
+      * assert (E : N.of_nat (length g) <? WCOLL_PATHBUF - 1 = true)
+          by (apply N.ltb_lt; unfold WCOLL_PATHBUF; lia).
+        rewrite E. exists g. split; [constructor; auto|]. split.
+        -- unfold locate. rewrite Ea. reflexivity.
+        -- unfold as_is. unfold taken_as_is in Ea. congruence.
+      * assert (El : locate dir g = dir ++ 47 :: g) by (unfold locate; rewrite Ea; reflexivity).
+        destruct (WCOLL_PATHBUF <=? N.of_nat (length (dir ++ 47 :: g))) eqn:Elen.
+        -- exists g. split; [constructor; auto|]. split; [exact Ea|].
+           rewrite El. destruct (lookup fs (dir ++ 47 :: g)) eqn:F; auto.
+           apply D10_lookup in F as [F _]. apply N.leb_le in Elen. unfold WCOLL_PATHBUF in Elen. lia.
+        -- destruct (lookup fs (dir ++ 47 :: g)) eqn:F.
+           ++ exists g. split; [constructor; auto|]. split; auto.
+              intros _. unfold readable. rewrite <- El, El, F. discriminate.
+           ++ exists g. split; [constructor; auto|]. split; [exact Ea|]. rewrite El. exact F.
+    + rewrite include_file_eq in Ei. destruct (is_prefix kw buf) eqn:Ek; [|discriminate].
+      apply K_malformed; [congruence|]. intros g Hg. apply Edir in Hg.
+      apply include_file_directive in Hg. rewrite include_file_eq, Ek in Hg. congruence.
+    + rewrite include_file_eq in Ei. destruct (is_prefix kw buf) eqn:Ek; [discriminate|].
+      apply K_comment; [auto|congruence].
+  - assert (Hh : hd 0 l <> 35) by (intro H; apply hash_prefix in H; congruence).
+    unfold line_expr. cbv zeta.
+    match goal with |- context [strip ?t] => replace (strip t) with (entry l) by (symmetry; exact (cut_comment _ _ Hb)) end.
+    pose proof (K_entry l Hh) as K. destruct (entry l); exact K.
+Qed.
+
+(* what a result of the reader must be, for the lines ls read with the files in cache seen *)
+Definition meets (ls : list bytes) (cache : list bytes) (r : rres) : Prop :=
+  match r with
+  | ROk es c w => reads fs dir ls cache (Some (es, c, w)) /\ Forall readable c
+  | RFatal => reads fs dir ls cache None
+  | RFault => False
+  | RDiverges => True
+  end.
+Definition sound_reader (rd : list bytes -> list bytes -> rres) : Prop :=
+  forall bufs ls cache, Forall2 bufline bufs ls -> forallb line_okb ls = true -> Forall readable cache ->
+                        meets ls cache (rd bufs cache).
+
+Lemma then_gives l ls cache es0 w0 k :
+  line_kind l (Gives es0 w0) -> Forall readable cache -> meets ls cache (k cache) ->
+  meets (l :: ls) cache (then_result (ROk es0 cache w0) k).
+Proof.
+  intros K Hc H. cbn [then_result]. destruct (k cache) as [es2 c2 w2| | |]; cbn [meets] in *; auto.
+  - destruct H as [H1 H2]. split; auto.
+    exact (Rd_line fs dir l ls cache es0 w0 _ K H1).
+  - exact (Rd_line fs dir l ls cache es0 w0 _ K H).
+Qed.
+
+Lemma lines_sound fuel : sound_reader (nested_of fs dir fuel) -> sound_reader (read_lines fs dir fuel).
+Proof.
+  intros Hn bufs ls cache HF. revert cache. induction HF as [|buf l bufs ls Hb HF IH]; intros cache Hok Hc.
+  - rewrite read_lines_nil. cbn. split; [constructor|auto].
+  - rewrite read_lines_cons. cbn [forallb] in Hok. apply andb_true_iff in Hok as [Hok1 Hok2].
+    pose proof (line_action_sound buf l Hb Hok1) as Ha. unfold line_result.
+    destruct (line_action fs dir buf) as [[e|]| |path| |] eqn:Ea.
+    + apply then_gives; auto.
+    + apply then_gives; auto.
+    + apply then_gives; auto.
+    + destruct Ha as (g & K & -> & Hr).
+      destruct (existsb (beq (locate dir g)) cache) eqn:Ec.
+      * apply existsb_beq_In in Ec. cbn [then_result]. specialize (IH cache Hok2 Hc).
+        destruct (read_lines fs dir fuel bufs cache) as [es2 c2 w2| | |]; cbn [meets] in *; auto.
+        -- destruct IH as [H1 H2]. split; auto. exact (Rd_again fs dir l g ls cache _ K Ec H1).
+        -- exact (Rd_again fs dir l g ls cache _ K Ec IH).
+      * apply existsb_beq_nIn in Ec.
+        destruct (lookup fs (locate dir g)) as [content|] eqn:El.
+        -- destruct (D10_lookup _ _ El) as [_ Ht].
+           assert (Hc' : Forall readable (locate dir g :: cache)).
+           { constructor; auto. unfold readable. rewrite El. discriminate. }
+           pose proof (Hn (file_lines content) (text_lines content) (locate dir g :: cache)
+                          (file_lines_text_lines content) Ht Hc') as H1.
+           destruct (nested_of fs dir fuel (file_lines content) (locate dir g :: cache)) as [es1 c1 w1| | |];
+             cbn [then_result meets] in *; auto.
+           ++ destruct H1 as [H1 Hc1]. specialize (IH c1 Hok2 Hc1).
+              destruct (read_lines fs dir fuel bufs c1) as [es2 c2 w2| | |]; cbn [meets] in *; auto.
+              ** destruct IH as [H2 H3]. split; auto.
+                 exact (Rd_include fs dir l g ls cache content es1 c1 w1 _ K Ec El H1 H2).
+              ** exact (Rd_include fs dir l g ls cache content es1 c1 w1 _ K Ec El H1 IH).
+           ++ exact (Rd_include_error fs dir l g ls cache content K Ec El H1).
+        -- cbn [then_result meets]. exact (Rd_unreadable fs dir l g ls cache K Ec El).
+    + destruct Ha as (g & K & Ha & El). cbn [then_result meets].
+      apply (Rd_unreadable fs dir l g ls cache K); auto.
+      intro Hin. rewrite Forall_forall in Hc. apply Hc in Hin. apply Hin. exact El.
+    + destruct Ha.
+Qed.
+
+Lemma read_lines_sound fuel : sound_reader (read_lines fs dir fuel).
+Proof.
+  induction fuel as [|f IH]; apply lines_sound.
+  - intros bufs ls cache _ _ _. exact I.
+  - exact IH.
+Qed.
+End Sound.
+
+(* ------------------------------------------------------------------------------------------------ *)
+(* the fuel never runs out: every nested read enters a new readable path in the cache                 *)
+(* ------------------------------------------------------------------------------------------------ *)
+Lemma filter_len_le {A} (f g : A -> bool) l :
+  (forall x, g x = true -> f x = true) -> (length (filter g l) <= length (filter f l))%nat.
+Proof.
+  intro H. induction l as [|x r IH]; cbn; auto.
+  destruct (g x) eqn:E.
+  - rewrite (H _ E). cbn. lia.
+  - destruct (f x); cbn; lia.
+Qed.
+Lemma filter_len_lt {A} (f g : A -> bool) l p :
+  (forall x, g x = true -> f x = true) -> In p l -> f p = true -> g p = false ->
+  (length (filter g l) < length (filter f l))%nat.
+Proof.
+  intros H Hin Hf Hg. induction l as [|x r IH]; [destruct Hin|].
+  cbn. destruct Hin as [->|Hin].
+  - rewrite Hf, Hg. cbn. pose proof (filter_len_le f g r H). lia.
+  - specialize (IH Hin). destruct (g x) eqn:E.
+    + rewrite (H _ E). cbn. lia.
+    + destruct (f x); cbn; lia.
+Qed.
+Lemma filter_len_all {A} (f : A -> bool) l : (length (filter f l) <= length l)%nat.
+Proof. induction l as [|x r IH]; cbn; auto. destruct (f x); cbn; lia. Qed.
+
+Section Term.
+Variable fs : fsys.
+Variable dir : bytes.
+
+(* readable paths not yet in the cache *)
+Definition avail (cache : list bytes) : nat :=
+  length (filter (fun p => negb (existsb (beq p) cache)) (map fst fs)).
+
+Lemma avail_bound cache : (avail cache <= length fs)%nat.
+Proof. unfold avail. etransitivity; [apply filter_len_all|]. rewrite map_length. auto. Qed.
+
+Lemma avail_mono c1 c2 : incl c1 c2 -> (avail c2 <= avail c1)%nat.
+Proof.
+  intro H. apply filter_len_le. intros x Hx.
+  destruct (existsb (beq x) c1) eqn:E; auto.
+  apply existsb_beq_In in E. apply H in E. apply existsb_beq_In in E. rewrite E in Hx. discriminate.
+Qed.
+
+Lemma avail_cons p c cache : lookup fs p = Some c -> ~ In p cache -> (avail (p :: cache) < avail cache)%nat.
+Proof.
+  intros Hl Hn. apply (filter_len_lt _ _ _ p).
+  - intros x Hx. cbn [existsb] in Hx. destruct (existsb (beq x) cache); auto.
+    rewrite orb_true_r in Hx. discriminate.
+  - apply lookup_In in Hl. apply (in_map fst) in Hl. exact Hl.
+  - apply existsb_beq_nIn in Hn. rewrite Hn. reflexivity.
+  - cbn [existsb]. rewrite beq_refl. reflexivity.
+Qed.
+
+(* the cache only grows *)
+Definition grows (rd : list bytes -> list bytes -> rres) : Prop :=
+  forall bufs cache es c w, rd bufs cache = ROk es c w -> incl cache c.
+
+Lemma then_result_ok r k es c w :
+  then_result r k = ROk es c w ->
+  exists es1 c1 w1 es2 w2, r = ROk es1 c1 w1 /\ k c1 = ROk es2 c w2 /\ es = es1 ++ es2 /\ w = (w1 + w2)%nat.
+Proof.
+  unfold then_result. destruct r as [es1 c1 w1| | |]; try discriminate.
+  destruct (k c1) as [es2 c2 w2| | |] eqn:E; try discriminate.
+  intro H; inversion H; subst. exists es1, c1, w1, es2, w2. auto.
+Qed.
+
+Lemma line_result_grows nested cache b es c w :
+  grows nested -> line_result fs dir nested cache b = ROk es c w -> incl cache c.
+Proof.
+  intros Hn. unfold line_result.
+  destruct (line_action fs dir b) as [[e|]| |path| |]; try discriminate;
+    try (intro H; inversion H; subst; apply incl_refl).
+  destruct (existsb (beq path) cache); [intro H; inversion H; subst; apply incl_refl|].
+  destruct (lookup fs path); [|discriminate].
+  intro H. apply Hn in H. intros x Hx. apply H. right; auto.
+Qed.
+
+Lemma lines_grow fuel : grows (nested_of fs dir fuel) -> grows (read_lines fs dir fuel).
+Proof.
+  intros Hn bufs. induction bufs as [|b bs IH]; intros cache es c w.
+  - rewrite read_lines_nil. intro H; inversion H; subst. apply incl_refl.
+  - rewrite read_lines_cons. intro H.
+    apply then_result_ok in H as (es1 & c1 & w1 & es2 & w2 & H1 & H2 & _ & _).
+    apply (line_result_grows _ _ _ _ _ _ Hn) in H1. apply IH in H2.
+    intros x Hx. auto.
+Qed.
+Lemma read_lines_grows fuel : grows (read_lines fs dir fuel).
+Proof.
+  induction fuel as [|f IH]; apply lines_grow; auto.
+  intros bufs cache es c w H. discriminate.
+Qed.
+Lemma nested_grows fuel : grows (nested_of fs dir fuel).
+Proof. destruct fuel; [intros bufs cache es c w H; discriminate|apply read_lines_grows]. Qed.
+
+Lemma then_result_diverges r k :
+  then_result r k = RDiverges -> r = RDiverges \/ exists es c w, r = ROk es c w /\ k c = RDiverges.
+Proof.
+  unfold then_result. destruct r as [es1 c1 w1| | |]; try discriminate; auto.
+  destruct (k c1) eqn:E; try discriminate. intros _. right. exists es1, c1, w1. auto.
+Qed.
+
+Lemma term_lines fuel :
+  (forall bufs cache, (avail cache < fuel)%nat -> nested_of fs dir fuel bufs cache <> RDiverges) ->
+  forall bufs cache, (avail cache <= fuel)%nat -> read_lines fs dir fuel bufs cache <> RDiverges.
+Proof.
+  intros Hn bufs. induction bufs as [|b bs IH]; intros cache Hav.
+  - rewrite read_lines_nil. discriminate.
+  - rewrite read_lines_cons. intro H. apply then_result_diverges in H as [H|(es & c & w & H1 & H2)].
+    + unfold line_result in H.
+      destruct (line_action fs dir b) as [[e|]| |path| |]; try discriminate.
+      destruct (existsb (beq path) cache) eqn:Ec; [discriminate|].
+      destruct (lookup fs path) eqn:El; [|discriminate].
+      apply existsb_beq_nIn in Ec. pose proof (avail_cons _ _ _ El Ec).
+      apply Hn in H; auto. lia.
+    + apply (line_result_grows _ _ _ _ _ _ (nested_grows fuel)) in H1.
+      apply avail_mono in H1. apply IH in H2; auto. lia.
+Qed.
+
+Lemma read_lines_terminates : forall fuel bufs cache,
+  (avail cache <= fuel)%nat -> read_lines fs dir fuel bufs cache <> RDiverges.
+Proof.
+  induction fuel as [|f IH]; apply term_lines.
+  - intros bufs cache H. lia.
+  - intros bufs cache H. cbn [nested_of]. apply IH. lia.
+Qed.
+End Term.
+
+Lemma read_wcoll_terminates fs file : read_wcoll fs file <> RDiverges.
+Proof.
+  unfold read_wcoll. destruct (lookup fs file); [|discriminate].
+  apply read_lines_terminates. unfold read_fuel. pose proof (avail_bound fs [dirname file ++ 47 :: basename file]). lia.
+Qed.
+Lemma read_stream_terminates fs content : read_stream fs content <> RDiverges.
+Proof.
+  unfold read_stream. apply read_lines_terminates. unfold read_fuel. pose proof (avail_bound fs []). lia.
+Qed.
+
+(* more fuel changes nothing once the reader has terminated *)
+Lemma line_result_stable fs dir n1 n2 cache b :
+  (forall bufs c, n1 bufs c <> RDiverges -> n2 bufs c = n1 bufs c) ->
+  line_result fs dir n1 cache b <> RDiverges -> line_result fs dir n2 cache b = line_result fs dir n1 cache b.
+Proof.
+  intros Hn. unfold line_result.
+  destruct (line_action fs dir b) as [[e|]| |path| |]; auto.
+  destruct (existsb (beq path) cache); auto. destruct (lookup fs path); auto.
+Qed.
+Lemma stable_lines fs dir f f' :
+  (forall bufs c, nested_of fs dir f bufs c <> RDiverges -> nested_of fs dir f' bufs c = nested_of fs dir f bufs c) ->
+  forall bufs cache, read_lines fs dir f bufs cache <> RDiverges ->
+                     read_lines fs dir f' bufs cache = read_lines fs dir f bufs cache.
+Proof.
+  intros Hn bufs. induction bufs as [|b bs IH]; intros cache H.
+  - rewrite !read_lines_nil. reflexivity.
+  - rewrite read_lines_cons in H. rewrite !read_lines_cons.
+    assert (H1 : line_result fs dir (nested_of fs dir f) cache b <> RDiverges).
+    { intro E. rewrite E in H. apply H. reflexivity. }
+    rewrite (line_result_stable _ _ _ _ _ _ Hn H1).
+    destruct (line_result fs dir (nested_of fs dir f) cache b) as [es c w| | |] eqn:E; cbn [then_result] in *; auto.
+    rewrite IH; [reflexivity|]. intro E2. rewrite E2 in H. apply H. reflexivity.
+Qed.
+Lemma fuel_stable fs dir : forall f f' bufs cache, (f <= f')%nat ->
+  read_lines fs dir f bufs cache <> RDiverges -> read_lines fs dir f' bufs cache = read_lines fs dir f bufs cache.
+Proof.
+  induction f as [|f IH]; intros f' bufs cache Hle; apply stable_lines.
+  - intros b c H. exfalso. apply H. reflexivity.
+  - intros b c H. destruct f' as [|f'']; [lia|]. cbn [nested_of] in *. apply IH; auto. lia.
+Qed.
+
+(* ------------------------------------------------------------------------------------------------ *)
+(* the specification is deterministic                                                                 *)
+(* ------------------------------------------------------------------------------------------------ *)
+Lemma line_kind_fun l k1 k2 : line_kind l k1 -> line_kind l k2 -> k1 = k2.
+Proof.
+  intros H1 H2. destruct H1 as [H1|H1 H1'|H1 H1'|g1 H1]; destruct H2 as [H2|H2 H2'|H2 H2'|g2 H2]; auto;
+    try congruence.
+  - apply kw_prefix_hash in H2. congruence.
+  - apply directive_prefix, kw_prefix_hash in H2. congruence.
+  - apply directive_prefix in H2. congruence.
+  - apply kw_prefix_hash in H1. congruence.
+  - exfalso. eapply H1'; eauto.
+  - apply directive_prefix, kw_prefix_hash in H1. congruence.
+  - apply directive_prefix in H1. congruence.
+  - exfalso. eapply H2'; eauto.
+  - f_equal. eapply directive_unique; eauto.
+Qed.
+
+Ltac same_kinds :=
+  repeat match goal with
+  | H1 : line_kind ?l ?k1, H2 : line_kind ?l ?k2 |- _ =>
+      let E := fresh "E" in
+      assert (E := line_kind_fun _ _ _ H1 H2); first [discriminate E | inversion E; subst; clear H2 E]
+  end.
+Ltac same_files :=
+  repeat match goal with
+  | H1 : lookup ?fs ?p = Some ?c1, H2 : lookup ?fs ?p = Some ?c2 |- _ =>
+      rewrite H1 in H2; inversion H2; subst; clear H2
+  | H1 : lookup ?fs ?p = Some _, H2 : lookup ?fs ?p = None |- _ => rewrite H1 in H2; discriminate H2
+  end.
+
+Lemma reads_fun fs dir ls seen o1 :
+  reads fs dir ls seen o1 -> forall o2, reads fs dir ls seen o2 -> o1 = o2.
+Proof.
+  induction 1; intros o2 Hsnd; inversion Hsnd; subst; same_kinds; try contradiction; same_files; auto.
+  - f_equal. auto.
+  - f_equal. auto.
+  - match goal with IH : forall o, reads _ _ (text_lines _) _ o -> None = o, H : reads _ _ (text_lines _) _ (Some _) |- _ =>
+      apply IH in H; discriminate H end.
+  - match goal with IH : forall o, reads _ _ (text_lines _) _ o -> Some _ = o, H : reads _ _ (text_lines _) _ None |- _ =>
+      apply IH in H; discriminate H end.
+  - match goal with IH : forall o, reads _ _ (text_lines _) _ o -> Some _ = o, H : reads _ _ (text_lines _) _ (Some _) |- _ =>
+      apply IH in H; inversion H; subst end.
+    f_equal. auto.
+Qed.
+
+(* ------------------------------------------------------------------------------------------------ *)
+(* model = specification                                                                              *)
+(* ------------------------------------------------------------------------------------------------ *)
+Definition embed (o : outcome) : rres :=
+  match o with Some (es, seen, w) => ROk es seen w | None => RFatal end.
+
+Lemma read_lines_complete fs dir fuel bufs ls cache o :
+  D10 fs = true -> Forall2 bufline bufs ls -> forallb line_okb ls = true -> Forall (readable fs) cache ->
+  (avail fs cache <= fuel)%nat ->
+  reads fs dir ls cache o -> read_lines fs dir fuel bufs cache = embed o.
+Proof.
+  intros HD HF Hok Hc Hav Hr.
+  pose proof (read_lines_sound fs dir HD fuel bufs ls cache HF Hok Hc) as Hs.
+  pose proof (read_lines_terminates fs dir fuel bufs cache Hav) as Ht.
+  destruct (read_lines fs dir fuel bufs cache) as [es c w| | |]; cbn [meets] in Hs.
+  - destruct Hs as [Hs _]. rewrite (reads_fun _ _ _ _ _ Hr _ Hs). reflexivity.
+  - rewrite (reads_fun _ _ _ _ _ Hr _ Hs). reflexivity.
+  - destruct Hs.
+  - congruence.
+Qed.
+
+(* every line list has an outcome under the specification, and the reader computes it *)
+Lemma read_lines_spec fs dir fuel bufs ls cache :
+  D10 fs = true -> Forall2 bufline bufs ls -> forallb line_okb ls = true -> Forall (readable fs) cache ->
+  (avail fs cache <= fuel)%nat ->
+  exists o, read_lines fs dir fuel bufs cache = embed o /\ reads fs dir ls cache o.
+Proof.
+  intros HD HF Hok Hc Hav.
+  pose proof (read_lines_sound fs dir HD fuel bufs ls cache HF Hok Hc) as Hs.
+  pose proof (read_lines_terminates fs dir fuel bufs cache Hav) as Ht.
+  destruct (read_lines fs dir fuel bufs cache) as [es c w| | |]; cbn [meets] in Hs.
+  - exists (Some (es, c, w)). split; [reflexivity|tauto].
+  - exists None. split; [reflexivity|auto].
+  - destruct Hs.
+  - congruence.
+Qed.
+
+(* ------------------------------------------------------------------------------------------------ *)
+(* files named on the command line, standard input                                                    *)
+(* ------------------------------------------------------------------------------------------------ *)
+(* the name an #include in the file would give the file itself *)
+Definition self_of (file : bytes) : bytes := dirname file ++ [47] ++ basename file.
+(* path resolution: a readable file is also readable as dirname/basename *)
+Definition knows_self (fs : fsys) (file : bytes) : Prop :=
+  lookup fs file <> None -> lookup fs (self_of file) <> None.
+
+Theorem read_wcoll_spec fs file :
+  D10 fs = true -> knows_self fs file ->
+  exists o, read_wcoll fs file = embed o /\ file_hosts fs (dirname file) (self_of file) file o.
+Proof.
+  intros HD Hself. unfold read_wcoll, file_hosts.
+  destruct (lookup fs file) as [c|] eqn:El.
+  - destruct (D10_lookup fs HD _ _ El) as [_ Ht].
+    apply read_lines_spec; auto.
+    + apply file_lines_text_lines.
+    + constructor; [|constructor]. apply Hself. congruence.
+    + etransitivity; [apply avail_bound|]. unfold read_fuel. lia.
+  - exists None. split; reflexivity.
+Qed.
+
+Theorem read_stream_spec fs content :
+  D10 fs = true -> text_okb content = true ->
+  exists o, read_stream fs content = embed o /\ stream_hosts fs content o.
+Proof.
+  intros HD Ht. unfold read_stream, stream_hosts. apply read_lines_spec; auto.
+  - apply file_lines_text_lines.
+  - unfold read_fuel. pose proof (avail_bound fs []). lia.
+Qed.
+
+Lemma file_hosts_fun fs dir self file o1 o2 :
+  file_hosts fs dir self file o1 -> file_hosts fs dir self file o2 -> o1 = o2.
+Proof.
+  unfold file_hosts. destruct (lookup fs file); [|congruence].
+  intros H1 H2. eapply reads_fun; eauto.
+Qed.
+
+(* ------------------------------------------------------------------------------------------------ *)
+(* whole lines                                                                                        *)
+(* ------------------------------------------------------------------------------------------------ *)
+(* l is a whole line of the text c: it stands between two newlines (or the ends of the text) *)
+Definition ends_ok (post : bytes) : Prop := post = [] \/ exists post', post = 10 :: post'.
+Definition whole_line (l c : bytes) : Prop :=
+  ~ In 10 l /\ exists pre post, c = pre ++ l ++ post /\ (pre = [] \/ exists pre', pre = pre' ++ [10]) /\ ends_ok post.
+
+Lemma split_all_head c : forall p ps, split_all 10 c = p :: ps ->
+  ~ In 10 p /\ exists post, c = p ++ post /\ ends_ok post.
+Proof.
+  induction c as [|x r IH]; intros p ps; cbn [split_all].
+  - intro H; inversion H; subst. split; [intros []|]. exists []. split; auto. left; auto.
+  - destruct (x =? 10) eqn:E.
+    + apply N.eqb_eq in E; subst. intro H; inversion H; subst. split; [intros []|].
+      exists (10 :: r). split; auto. right; eauto.
+    + apply N.eqb_neq in E. destruct (split_all 10 r) as [|p' ps'] eqn:F; intro H; inversion H; subst.
+      * exfalso. eapply split_all_nonempty; eauto.
+      * destruct (IH _ _ eq_refl) as (H1 & post & -> & H2). split.
+        -- intros [H3|H3]; [congruence|auto].
+        -- exists post. split; auto.
+Qed.
+
+Lemma split_all_tail c : forall p ps l, split_all 10 c = p :: ps -> In l ps ->
+  ~ In 10 l /\ exists pre post, c = pre ++ [10] ++ l ++ post /\ ends_ok post.
+Proof.
+  induction c as [|x r IH]; intros p ps l; cbn [split_all].
+  - intro H; inversion H; subst. intros [].
+  - destruct (x =? 10) eqn:E.
+    + apply N.eqb_eq in E; subst. intro H; inversion H; subst. intro Hin.
+      destruct (split_all 10 r) as [|p' ps'] eqn:F; [destruct Hin|].
+      destruct Hin as [<-|Hin].
+      * destruct (split_all_head r _ _ F) as (H1 & post & -> & H2). split; auto.
+        exists [], post. split; auto.
+      * destruct (IH _ _ _ eq_refl Hin) as (H1 & pre & post & -> & H2). split; auto.
+        exists (10 :: pre), post. split; auto.
+    + destruct (split_all 10 r) as [|p' ps'] eqn:F; intro H; inversion H; subst.
+      * intros [].
+      * intro Hin. destruct (IH _ _ _ eq_refl Hin) as (H1 & pre & post & -> & H2). split; auto.
+        exists (x :: pre), post. split; auto.
+Qed.
+
+Lemma In_removelast {A} (x : A) l : In x (removelast l) -> In x l.
+Proof.
+  induction l as [|y r IH]; cbn; auto. destruct r as [|z r']; [intros []|].
+  intros [H|H]; auto.
+Qed.
+
+Lemma text_lines_whole c l : In l (text_lines c) -> whole_line l c.
+Proof.
+  intro H. assert (Hin : In l (split_all 10 c)).
+  { unfold text_lines in H. destruct (last (split_all 10 c) [1]); auto. apply In_removelast; auto. }
+  destruct (split_all 10 c) as [|p ps] eqn:F; [destruct Hin|].
+  destruct Hin as [<-|Hin].
+  - destruct (split_all_head c _ _ F) as (H1 & post & -> & H2). split; auto.
+    exists [], post. split; auto.
+  - destruct (split_all_tail c _ _ _ F Hin) as (H1 & pre & post & -> & H2). split; auto.
+    exists (pre ++ [10]), post. rewrite <- !app_assoc. split; auto. split; auto. right; eauto.
+Qed.
+
+(* every expression is the entry of one whole line of one file (or of the text being read) *)
+Lemma and_then_some es0 w0 o es s w :
+  and_then es0 w0 o = Some (es, s, w) -> exists es2 w2, o = Some (es2, s, w2) /\ es = es0 ++ es2 /\ w = (w0 + w2)%nat.
+Proof.
+  destruct o as [[[es2 s2] w2]|]; cbn; [|discriminate]. intro H; inversion H; subst. eauto.
+Qed.
+
+Lemma gives_entry l es w e : line_kind l (Gives es w) -> In e es -> e = entry l /\ e <> [].
+Proof.
+  intro K. inversion K; subst; try (intros []).
+  destruct (entry l) eqn:E; [intros []|]. intros [<-|[]]. split; [reflexivity|discriminate].
+Qed.
+
+Lemma reads_entries fs dir ls seen o : reads fs dir ls seen o ->
+  forall es s w e, o = Some (es, s, w) -> In e es ->
+    exists l, e = entry l /\ e <> [] /\
+              (In l ls \/ exists p c, lookup fs p = Some c /\ In l (text_lines c)).
+Proof.
+  induction 1; intros es' s' w' e Ho Hin.
+  - inversion Ho; subst. destruct Hin.
+  - apply and_then_some in Ho as (es2 & w2 & -> & -> & _). apply in_app_or in Hin as [Hin|Hin].
+    + destruct (gives_entry _ _ _ _ H Hin) as [-> Hne]. exists l. split; auto. split; auto. left; left; auto.
+    + destruct (IHreads _ _ _ _ eq_refl Hin) as (l0 & A & B & [C|C]); exists l0; split; auto; split; auto.
+      left; right; auto.
+  - apply and_then_some in Ho as (es2 & w2 & -> & -> & _). cbn [app] in Hin.
+    destruct (IHreads _ _ _ _ eq_refl Hin) as (l0 & A & B & [C|C]); exists l0; split; auto; split; auto.
+    left; right; auto.
+  - discriminate.
+  - discriminate.
+  - apply and_then_some in Ho as (es2 & w2 & -> & -> & _). apply in_app_or in Hin as [Hin|Hin].
+    + destruct (IHreads1 _ _ _ _ eq_refl Hin) as (l0 & A & B & [C|C]); exists l0; split; auto; split; auto.
+      right. eauto.
+    + destruct (IHreads2 _ _ _ _ eq_refl Hin) as (l0 & A & B & [C|C]); exists l0; split; auto; split; auto.
+      left; right; auto.
+Qed.
+
+(* the files seen: never one twice, and only added to *)
+Lemma reads_seen fs dir ls seen o : reads fs dir ls seen o ->
+  forall es s w, o = Some (es, s, w) -> NoDup seen -> NoDup s /\ exists new, s = new ++ seen.
+Proof.
+  induction 1; intros es' s' w' Ho Hnd.
+  - inversion Ho; subst. split; auto. exists []; auto.
+  - apply and_then_some in Ho as (es2 & w2 & -> & _). eauto.
+  - apply and_then_some in Ho as (es2 & w2 & -> & _). eauto.
+  - discriminate.
+  - discriminate.
+  - apply and_then_some in Ho as (es2 & w2 & -> & _).
+    destruct (IHreads1 _ _ _ eq_refl) as (N1 & new1 & ->); [constructor; auto|].
+    destruct (IHreads2 _ _ _ eq_refl N1) as (N2 & new2 & ->). split; auto.
+    exists (new2 ++ new1 ++ [locate dir g]). rewrite <- !app_assoc. reflexivity.
+Qed.
+
+(* ------------------------------------------------------------------------------------------------ *)
+(* lines are handled in order: reading a ++ b is reading a, then b with the cache a left              *)
+(* ------------------------------------------------------------------------------------------------ *)
+Lemma then_result_assoc r k1 k2 :
+  then_result (then_result r k1) k2 = then_result r (fun c => then_result (k1 c) k2).
+Proof.
+  destruct r as [es c w| | |]; cbn [then_result]; auto.
+  destruct (k1 c) as [es1 c1 w1| | |]; cbn [then_result]; auto.
+  destruct (k2 c1) as [es2 c2 w2| | |]; cbn [then_result]; auto.
+  rewrite app_assoc, Nat.add_assoc. reflexivity.
+Qed.
+Lemma then_result_ext r k1 k2 : (forall c, k1 c = k2 c) -> then_result r k1 = then_result r k2.
+Proof. intro H. destruct r; cbn [then_result]; auto. rewrite H. reflexivity. Qed.
+Lemma read_lines_app fs dir fuel a b cache :
+  read_lines fs dir fuel (a ++ b) cache = then_result (read_lines fs dir fuel a cache) (read_lines fs dir fuel b).
+Proof.
+  revert cache. induction a as [|x a IH]; intro cache.
+  - rewrite read_lines_nil. cbn [app then_result].
+    destruct (read_lines fs dir fuel b cache) as [es c w| | |]; auto.
+  - cbn [app]. rewrite !read_lines_cons, then_result_assoc. apply then_result_ext. exact IH.
+Qed.
+
+(* ------------------------------------------------------------------------------------------------ *)
+(* the command line                                                                                   *)
+(* ------------------------------------------------------------------------------------------------ *)
+Definition nonempty (p : bytes) : bool := match p with [] => false | _ => true end.
+
+Lemma pieces_nonempty s d : pieces s d <> [].
+Proof.
+  revert d; induction s as [|b r IH]; intro d; cbn [pieces]; [discriminate|].
+  destruct ((b =? 44) && (d =? 0)%Z); [discriminate|].
+  destruct (pieces r _); discriminate.
+Qed.
+
+Lemma split_go_pieces s : forall level cur,
+  split_go 44 s level cur = filter nonempty (prefix_first (rev cur) (pieces s level)).
+Proof.
+  induction s as [|b r IH]; intros level cur.
+  - cbn [split_go pieces prefix_first filter]. rewrite app_nil_r. unfold emit_tok.
+    destruct cur as [|x c]; [reflexivity|].
+    destruct (rev (x :: c)) eqn:E; [|reflexivity].
+    apply (f_equal (@length _)) in E. rewrite rev_length in E. discriminate.
+  - cbn [split_go pieces]. destruct ((b =? 44) && (level =? 0)%Z).
+    + rewrite IH. cbn [rev app prefix_first filter]. rewrite app_nil_r.
+      destruct (pieces r 0) as [|p ps] eqn:F; [exfalso; eapply pieces_nonempty; eauto|].
+      cbn [prefix_first app]. unfold emit_tok.
+      destruct cur as [|x c]; [reflexivity|].
+      destruct (rev (x :: c)) eqn:E; [|reflexivity].
+      apply (f_equal (@length _)) in E. rewrite rev_length in E. discriminate.
+    + rewrite IH. unfold bump.
+      destruct (pieces r (if b =? 91 then (level + 1)%Z else if b =? 93 then (level - 1)%Z else level)) as [|p ps] eqn:F;
+        [exfalso; eapply pieces_nonempty; eauto|].
+      cbn [prefix_first rev]. rewrite <- app_assoc. reflexivity.
+Qed.
+
+Lemma arg_words_spec a : arg_words a = words_of a.
+Proof.
+  unfold arg_words, words_of, list_split. rewrite split_go_pieces. cbn [rev].
+  destruct (pieces (if beq a [45] then [94; 45] else a) 0) as [|p ps] eqn:F; [exfalso; eapply pieces_nonempty; eauto|].
+  reflexivity.
+Qed.
+
+Lemma existsb_or (f g : N -> bool) s : existsb (fun b => f b || g b) s = existsb f s || existsb g s.
+Proof.
+  induction s as [|x r IH]; cbn; auto. rewrite IH.
+  destruct (f x), (g x), (existsb f r), (existsb g r); reflexivity.
+Qed.
+Lemma mem_existsb c s : mem c s = existsb (fun b => b =? c) s.
+Proof. unfold mem. induction s as [|x r IH]; cbn; auto. rewrite IH, N.eqb_sym. reflexivity. Qed.
+
+(* the code's reading of a word against the specification's *)
+Definition source_of_class (k : word_class) : source :=
+  match k with
+  | WcFile ex path => if beq path [45] then (if ex then SExclStdin else SStdin)
+                      else (if ex then SExclFile path else SFile path)
+  | WcRegex | WcTyped => SOther
+  | WcExcluded => SNothing
+  | WcHosts e => SHosts e
+  end.
+Lemma classify_source w : source_of w = source_of_class (classify_word w).
+Proof.
+  unfold source_of, classify_word.
+  destruct (is_prefix [45] w);
+    set (p := drop_while is_space _);
+    (destruct (is_prefix [94] p); [cbn [source_of_class]; destruct (beq (skipn 1 p) [45]); reflexivity|]);
+    (destruct (is_prefix [47] p); [reflexivity|]); [reflexivity|].
+  rewrite existsb_or, <- !mem_existsb. destruct (mem 58 p || mem 64 p); reflexivity.
+Qed.
+
+Lemma source_of_caret v : source_of (94 :: v) = if beq v [45] then SStdin else SFile v.
+Proof. reflexivity. Qed.
+Lemma classify_caret v : classify_word (94 :: v) = WcFile false v.
+Proof. reflexivity. Qed.
+
+Lemma add_exprs_app l a b : add_exprs (add_exprs l a) b = add_exprs l (a ++ b).
+Proof. destruct l; cbn; [rewrite app_assoc|]; reflexivity. Qed.
+
+Lemma text_okb_nil : text_okb [] = true.
+Proof. reflexivity. Qed.
+
+Section Cmd.
+Variable fs : fsys.
+Hypothesis HD : D10 fs = true.
+Hypothesis Hself : forall p, knows_self fs p.
+
+Notation contributes' := (contributes fs dirname self_of).
+Notation assembled' := (assembled fs dirname self_of).
+
+(* reading a source: a file, or standard input (which is then used up) *)
+Lemma read_source_spec stdin path : text_okb stdin = true ->
+  let '(r, stdin') := read_source fs stdin path in
+  text_okb stdin' = true /\
+  exists o, r = embed o /\
+            (if beq path [45] then stream_hosts fs stdin o /\ stdin' = []
+             else file_hosts fs (dirname path) (self_of path) path o /\ stdin' = stdin).
+Proof.
+  intro Ht. unfold read_source. destruct (beq path [45]).
+  - split; [reflexivity|]. destruct (read_stream_spec fs stdin HD Ht) as (o & E & S). eauto.
+  - split; [exact Ht|]. destruct (read_wcoll_spec fs path HD (Hself path)) as (o & E & S). eauto.
+Qed.
+
+Definition step_meets (st : astate) (w : bytes) (r : wres) : Prop :=
+  match r with
+  | WOk st' =>
+      text_okb (as_stdin st') = true /\
+      exists es wn, contributes' (as_stdin st) w (Some (es, wn)) (as_stdin st') /\
+                    as_warn st' = (as_warn st + wn)%nat /\
+                    as_list st' = (if names_targets w then add_exprs (as_list st) es else as_list st) /\
+                    (names_targets w = false -> es = [])
+  | WError => exists s', contributes' (as_stdin st) w None s'
+  | WFault | WDiverges => False
+  | WOutOfScope => source_of w = SOther
+  end.
+
+Lemma word_step_spec st w : text_okb (as_stdin st) = true -> step_meets st w (word_step fs st w).
+Proof.
+  intro Ht. unfold word_step, step_meets, names_targets.
+  pose proof (classify_source w) as Ec.
+  destruct (classify_word w) as [ex path| | | |e] eqn:Ek; cbn [source_of_class] in Ec.
+  - pose proof (read_source_spec (as_stdin st) path Ht) as Hr.
+    destruct (read_source fs (as_stdin st) path) as [r stdin'].
+    destruct Hr as (Ht' & o & -> & Hr).
+    destruct (beq path [45]) eqn:Ep.
+    + destruct Hr as [Hs ->]. destruct o as [[[es seen] wn]|]; cbn [embed].
+      * cbn [as_stdin as_warn as_list]. split; [reflexivity|].
+        destruct ex; rewrite Ec.
+        -- exists [], wn. split; [|auto]. exact (C_exstdin fs dirname self_of _ _ _ Ec Hs).
+        -- exists es, wn. split; [|split; [auto|split; [auto|discriminate]]].
+           exact (C_stdin fs dirname self_of _ _ _ Ec Hs).
+      * exists []. destruct ex.
+        -- exact (C_exstdin fs dirname self_of _ _ _ Ec Hs).
+        -- exact (C_stdin fs dirname self_of _ _ _ Ec Hs).
+    + destruct Hr as [Hs ->]. destruct o as [[[es seen] wn]|]; cbn [embed].
+      * cbn [as_stdin as_warn as_list]. split; [exact Ht|].
+        destruct ex; rewrite Ec.
+        -- exists [], wn. split; [|auto]. exact (C_exfile fs dirname self_of _ _ _ _ Ec Hs).
+        -- exists es, wn. split; [|split; [auto|split; [auto|discriminate]]].
+           exact (C_file fs dirname self_of _ _ _ _ Ec Hs).
+      * exists (as_stdin st). destruct ex.
+        -- exact (C_exfile fs dirname self_of _ _ _ _ Ec Hs).
+        -- exact (C_file fs dirname self_of _ _ _ _ Ec Hs).
+  - exact Ec.
+  - split; [exact Ht|]. rewrite Ec. exists [], 0%nat. split; [|auto].
+    exact (C_nothing fs dirname self_of _ _ Ec).
+  - exact Ec.
+  - cbn [as_stdin as_warn as_list]. split; [exact Ht|]. rewrite Ec. exists [e], 0%nat.
+    split; [|split; [auto|split; [auto|discriminate]]].
+    exact (C_hosts fs dirname self_of _ _ _ Ec).
+Qed.
+
+Definition run_meets (st : astate) (ws : list bytes) (r : wres) : Prop :=
+  match r with
+  | WOk st' =>
+      text_okb (as_stdin st') = true /\
+      exists es wn, assembled' (as_stdin st) ws (Some (es, wn)) (as_stdin st') /\
+                    as_warn st' = (as_warn st + wn)%nat /\
+                    as_list st' = (if existsb names_targets ws then add_exprs (as_list st) es else as_list st) /\
+                    (existsb names_targets ws = false -> es = [])
+  | WError => exists s', assembled' (as_stdin st) ws None s'
+  | WFault | WDiverges => False
+  | WOutOfScope => exists w, In w ws /\ source_of w = SOther
+  end.
+
+Lemma run_words_spec ws : forall st, text_okb (as_stdin st) = true -> run_meets st ws (run_words fs st ws).
+Proof.
+  induction ws as [|w ws IH]; intros st Ht.
+  - cbn. split; auto. exists [], 0%nat. split; [constructor|]. split; [lia|auto].
+  - cbn [run_words]. pose proof (word_step_spec st w Ht) as Hs.
+    destruct (word_step fs st w) as [st1| | | |]; cbn [step_meets] in Hs; cbn [run_meets].
+    + destruct Hs as (Ht1 & es1 & wn1 & C1 & W1 & L1 & N1).
+      specialize (IH st1 Ht1). destruct (run_words fs st1 ws) as [st2| | | |]; cbn [run_meets] in *.
+      * destruct IH as (Ht2 & es2 & wn2 & A2 & W2 & L2 & N2). split; auto.
+        exists (es1 ++ es2), (wn1 + wn2)%nat. split.
+        { exact (As_cons fs dirname self_of _ w ws (es1, wn1) _ (Some (es2, wn2)) _ C1 A2). }
+        split; [lia|]. cbn [existsb]. rewrite L2, L1.
+        destruct (names_targets w) eqn:Ew, (existsb names_targets ws) eqn:Ews; cbn [orb].
+        -- split; [apply add_exprs_app|discriminate].
+        -- rewrite (N2 eq_refl), app_nil_r. split; [reflexivity|discriminate].
+        -- rewrite (N1 eq_refl). split; [reflexivity|discriminate].
+        -- rewrite (N1 eq_refl), (N2 eq_refl). split; auto.
+      * destruct IH as (s' & A2). exists s'.
+        exact (As_cons fs dirname self_of _ w ws (es1, wn1) _ None _ C1 A2).
+      * destruct IH.
+      * destruct IH.
+      * destruct IH as (w' & Hin & Ho). exists w'. split; [right; auto|auto].
+    + destruct Hs as (s' & C1). exists s'. exact (As_error fs dirname self_of _ w ws _ C1).
+    + destruct Hs.
+    + destruct Hs.
+    + exists w. split; [left; auto|auto].
+Qed.
+
+Theorem assemble_spec stdin wcoll args : text_okb stdin = true ->
+  match assemble (mkaw fs stdin wcoll) args with
+  | AOk es w => target_list fs dirname self_of stdin wcoll args (Some (es, w))
+  | AError => target_list fs dirname self_of stdin wcoll args None
+  | AFault | ADiverges => False
+  | AOutOfScope => exists w, In w (flat_map words_of args) /\ source_of w = SOther
+  end.
+Proof.
+  intro Ht. unfold assemble. cbn [aw_fs aw_stdin aw_wcoll].
+  assert (Ew : flat_map arg_words args = flat_map words_of args).
+  { induction args as [|a r IH]; cbn; [reflexivity|]. rewrite arg_words_spec, IH. reflexivity. }
+  rewrite Ew. set (ws := flat_map words_of args).
+  pose proof (run_words_spec ws (mkast None stdin 0) Ht) as Hr. cbn [as_stdin as_warn as_list] in Hr.
+  destruct (run_words fs (mkast None stdin 0) ws) as [st| | | |]; cbn [run_meets] in Hr; auto.
+  - destruct Hr as (Ht1 & es & wn & A & W & L & N). cbn [Nat.add] in W.
+    destruct (existsb names_targets ws) eqn:Ews.
+    + rewrite L. cbn [add_exprs]. rewrite W. exact (T_given fs dirname self_of _ _ _ _ _ Ews A).
+    + rewrite L. rewrite (N eq_refl) in A. destruct wcoll as [v|].
+      * pose proof (read_source_spec (as_stdin st) v Ht1) as Hs.
+        destruct (read_source fs (as_stdin st) v) as [r stdin'] eqn:Er. cbn [fst].
+        destruct Hs as (_ & o & -> & Hs).
+        assert (C : contributes' (as_stdin st) (94 :: v) (given o) stdin').
+        { destruct (beq v [45]) eqn:Ev; destruct Hs as [Hs ->].
+          - apply C_stdin; auto. rewrite source_of_caret, Ev. reflexivity.
+          - apply (C_file fs dirname self_of _ _ v); auto. rewrite source_of_caret, Ev. reflexivity. }
+        pose proof (T_wcoll fs dirname self_of stdin (Some v) args ([], wn) _ v _ _ Ews eq_refl A C) as T.
+        destruct o as [[[es' seen] wn']|]; cbn [embed given join fst snd app] in *; rewrite W; exact T.
+      * rewrite W. exact (T_none fs dirname self_of _ _ _ _ _ Ews eq_refl A).
+  - destruct Hr as (s' & A). exact (T_error fs dirname self_of _ _ _ _ A).
+Qed.
+End Cmd.
+
+(* the command-line specification is deterministic *)
+Lemma contributes_fun fs d s stdin w r1 s1 r2 s2 :
+  contributes fs d s stdin w r1 s1 -> contributes fs d s stdin w r2 s2 -> r1 = r2 /\ s1 = s2.
+Proof.
+  intros H1 H2. inversion H1; subst; inversion H2; subst; try congruence;
+    repeat match goal with
+    | A : source_of ?w = _, B : source_of ?w = _ |- _ => rewrite A in B; inversion B; subst; clear B
+    end; auto.
+  - match goal with A : file_hosts _ _ _ _ ?o1, B : file_hosts _ _ _ _ ?o2 |- _ =>
+      rewrite (file_hosts_fun _ _ _ _ _ _ A B) end. auto.
+  - match goal with A : stream_hosts _ _ ?o1, B : stream_hosts _ _ ?o2 |- _ =>
+      rewrite (reads_fun _ _ _ _ _ A _ B) end. auto.
+  - match goal with A : file_hosts _ _ _ _ ?o1, B : file_hosts _ _ _ _ ?o2 |- _ =>
+      rewrite (file_hosts_fun _ _ _ _ _ _ A B) end. auto.
+  - match goal with A : stream_hosts _ _ ?o1, B : stream_hosts _ _ ?o2 |- _ =>
+      rewrite (reads_fun _ _ _ _ _ A _ B) end. auto.
+Qed.
+
+Lemma assembled_fun fs d s stdin ws r1 s1 :
+  assembled fs d s stdin ws r1 s1 -> forall r2 s2, assembled fs d s stdin ws r2 s2 -> r1 = r2 /\ s1 = s2.
+Proof.
+  induction 1; intros r2 s2 Hsnd; inversion Hsnd; subst; auto.
+  - match goal with A : contributes _ _ _ _ _ (Some _) _, B : contributes _ _ _ _ _ (Some _) _ |- _ =>
+      destruct (contributes_fun _ _ _ _ _ _ _ _ _ A B) as [E1 E2]; inversion E1; subst end.
+    match goal with B : assembled _ _ _ _ _ _ _ |- _ => apply IHassembled in B as [-> ->] end. auto.
+  - match goal with A : contributes _ _ _ _ _ (Some _) _, B : contributes _ _ _ _ _ None _ |- _ =>
+      destruct (contributes_fun _ _ _ _ _ _ _ _ _ A B) as [E1 E2]; discriminate E1 end.
+  - match goal with A : contributes _ _ _ _ _ None _, B : contributes _ _ _ _ _ (Some _) _ |- _ =>
+      destruct (contributes_fun _ _ _ _ _ _ _ _ _ A B) as [E1 E2]; discriminate E1 end.
+  - match goal with A : contributes _ _ _ _ _ None _, B : contributes _ _ _ _ _ None _ |- _ =>
+      destruct (contributes_fun _ _ _ _ _ _ _ _ _ A B) as [E1 E2]; subst end. auto.
+Qed.
+
+Lemma target_list_fun fs d s stdin wcoll args r1 r2 :
+  target_list fs d s stdin wcoll args r1 -> target_list fs d s stdin wcoll args r2 -> r1 = r2.
+Proof.
+  intros H1 H2. inversion H1; subst; inversion H2; subst; try congruence;
+    repeat match goal with
+    | A : assembled _ _ _ ?x ?ws _ _, B : assembled _ _ _ ?x ?ws _ _ |- _ =>
+        let E1 := fresh "E" in let E2 := fresh "E" in
+        destruct (assembled_fun _ _ _ _ _ _ _ A _ _ B) as [E1 E2];
+        first [discriminate E1 | inversion E1; subst; clear B]
+    end; auto; try congruence.
+  repeat match goal with A : Some ?x = Some ?y |- _ => first [constr_eq x y; clear A | inversion A; subst] end.
+  match goal with A : contributes _ _ _ _ _ _ _, B : contributes _ _ _ _ _ _ _ |- _ =>
+    destruct (contributes_fun _ _ _ _ _ _ _ _ _ A B) as [-> _] end. reflexivity.
+Qed.
+
+(* ------------------------------------------------------------------------------------------------ *)
+(* facts about the model that need no domain hypothesis                                               *)
+(* ------------------------------------------------------------------------------------------------ *)
+(* order: the words are handled from left to right, each appending to what the earlier ones gave *)
+Lemma run_words_app fs st a b :
+  run_words fs st (a ++ b) = match run_words fs st a with WOk st1 => run_words fs st1 b | e => e end.
+Proof.
+  revert st. induction a as [|w a IH]; intro st; cbn [app run_words]; [reflexivity|].
+  destruct (word_step fs st w); auto.
+Qed.
+
+Definition extends (l l' : option (list bytes)) : Prop :=
+  match l with None => True | Some a => exists es, l' = Some (a ++ es) end.
+Lemma extends_refl l : extends l l.
+Proof. destruct l; cbn; auto. exists []. rewrite app_nil_r. reflexivity. Qed.
+Lemma extends_trans a b c : extends a b -> extends b c -> extends a c.
+Proof.
+  destruct a as [x|]; cbn; auto. intros (e1 & ->). cbn. intros (e2 & ->). exists (e1 ++ e2).
+  rewrite app_assoc. reflexivity.
+Qed.
+Lemma extends_add l es : extends l (add_exprs l es).
+Proof. destruct l; cbn; eauto. Qed.
+
+Lemma word_step_extends fs st w st' : word_step fs st w = WOk st' -> extends (as_list st) (as_list st').
+Proof.
+  unfold word_step. destruct (classify_word w) as [ex path| | | |e]; try discriminate.
+  - destruct (read_source fs (as_stdin st) path) as [r s']. destruct r; try discriminate.
+    intro H; inversion H; subst; cbn [as_list]. destruct ex; [apply extends_refl|apply extends_add].
+  - intro H; inversion H; subst. apply extends_refl.
+  - intro H; inversion H; subst; cbn [as_list]. apply extends_add.
+Qed.
+Lemma run_words_extends fs ws : forall st st', run_words fs st ws = WOk st' -> extends (as_list st) (as_list st').
+Proof.
+  induction ws as [|w ws IH]; intros st st'; cbn [run_words].
+  - intro H; inversion H; subst. apply extends_refl.
+  - destruct (word_step fs st w) as [st1| | | |] eqn:E; try discriminate.
+    intro H. eapply extends_trans; [eapply word_step_extends; eauto|eauto].
+Qed.
+
+(* WCOLL is consulted exactly when no word named a target *)
+Lemma names_targets_class w :
+  names_targets w = match classify_word w with WcFile ex _ => negb ex | WcHosts _ => true | _ => false end.
+Proof.
+  unfold names_targets. rewrite classify_source.
+  destruct (classify_word w) as [ex path| | | |e]; cbn [source_of_class]; auto.
+  destruct (beq path [45]), ex; reflexivity.
+Qed.
+
+Lemma word_step_list_none fs st w st' : word_step fs st w = WOk st' ->
+  (as_list st' = None <-> as_list st = None /\ names_targets w = false).
+Proof.
+  rewrite names_targets_class. unfold word_step.
+  destruct (classify_word w) as [ex path| | | |e]; try discriminate.
+  - destruct (read_source fs (as_stdin st) path) as [r s']. destruct r; try discriminate.
+    intro H; inversion H; subst; cbn [as_list]. destruct ex; cbn [negb].
+    + tauto.
+    + destruct (as_list st); cbn; split; try discriminate; intros [_ ?]; discriminate.
+  - intro H; inversion H; subst. tauto.
+  - intro H; inversion H; subst; cbn [as_list].
+    destruct (as_list st); cbn; split; try discriminate; intros [_ ?]; discriminate.
+Qed.
+Lemma run_words_list_none fs ws : forall st st', run_words fs st ws = WOk st' ->
+  (as_list st' = None <-> as_list st = None /\ existsb names_targets ws = false).
+Proof.
+  induction ws as [|w ws IH]; intros st st'; cbn [run_words existsb].
+  - intro H; inversion H; subst. tauto.
+  - destruct (word_step fs st w) as [st1| | | |] eqn:E; try discriminate.
+    intro H. rewrite (IH _ _ H), (word_step_list_none _ _ _ _ E), orb_false_iff. tauto.
+Qed.
+
+Lemma wcoll_ignored fs stdin wc args :
+  existsb names_targets (flat_map arg_words args) = true ->
+  assemble (mkaw fs stdin wc) args = assemble (mkaw fs stdin None) args.
+Proof.
+  intro H. unfold assemble. cbn [aw_fs aw_stdin aw_wcoll].
+  destruct (run_words fs (mkast None stdin 0) (flat_map arg_words args)) as [st| | | |] eqn:E; auto.
+  destruct (as_list st) eqn:El; auto.
+  apply (run_words_list_none _ _ _ _ E) in El as [_ El]. congruence.
+Qed.
+
+Lemma wcoll_used fs stdin v args st :
+  existsb names_targets (flat_map arg_words args) = false ->
+  run_words fs (mkast None stdin 0) (flat_map arg_words args) = WOk st ->
+  assemble (mkaw fs stdin (Some v)) args =
+  match fst (read_source fs (as_stdin st) v) with
+  | ROk es _ wn => AOk es (as_warn st + wn)
+  | RFatal => AError | RFault => AFault | RDiverges => ADiverges
+  end.
+Proof.
+  intros H E. unfold assemble. cbn [aw_fs aw_stdin aw_wcoll]. rewrite E.
+  assert (El : as_list st = None) by (apply (run_words_list_none _ _ _ _ E); auto).
+  rewrite El. reflexivity.
+Qed.
+
+(* unreadable is an error *)
+Lemma unreadable_file fs file : lookup fs file = None -> read_wcoll fs file = RFatal.
+Proof. intro H. unfold read_wcoll. rewrite H. reflexivity. Qed.
+
+Lemma unreadable_include fs dir fuel b bs cache p :
+  line_action fs dir b = LInclude p -> ~ In p cache -> lookup fs p = None ->
+  read_lines fs dir fuel (b :: bs) cache = RFatal.
+Proof.
+  intros Ha Hn Hl. rewrite read_lines_cons. unfold line_result. rewrite Ha.
+  apply existsb_beq_nIn in Hn. rewrite Hn, Hl. reflexivity.
+Qed.
+Lemma unresolved_include fs dir fuel b bs cache :
+  line_action fs dir b = LFatal -> read_lines fs dir fuel (b :: bs) cache = RFatal.
+Proof. intros Ha. rewrite read_lines_cons. unfold line_result. rewrite Ha. reflexivity. Qed.
+
+Lemma unreadable_word fs st w ex p :
+  classify_word w = WcFile ex p -> beq p [45] = false -> lookup fs p = None -> word_step fs st w = WError.
+Proof.
+  intros Hc Hp Hl. unfold word_step, read_source. rewrite Hc, Hp, (unreadable_file _ _ Hl). reflexivity.
+Qed.
+
+Lemma unreadable_source fs stdin wc args a w b st1 ex p :
+  flat_map arg_words args = a ++ w :: b -> run_words fs (mkast None stdin 0) a = WOk st1 ->
+  classify_word w = WcFile ex p -> beq p [45] = false -> lookup fs p = None ->
+  assemble (mkaw fs stdin wc) args = AError.
+Proof.
+  intros Ew Ea Hc Hp Hl. unfold assemble. cbn [aw_fs aw_stdin aw_wcoll].
+  rewrite Ew, run_words_app, Ea. cbn [run_words]. rewrite (unreadable_word _ _ _ _ _ Hc Hp Hl). reflexivity.
+Qed.
+Lemma unreadable_wcoll fs stdin v args st :
+  run_words fs (mkast None stdin 0) (flat_map arg_words args) = WOk st -> as_list st = None ->
+  beq v [45] = false -> lookup fs v = None ->
+  assemble (mkaw fs stdin (Some v)) args = AError.
+Proof.
+  intros E El Hv Hl. unfold assemble. cbn [aw_fs aw_stdin aw_wcoll]. rewrite E, El.
+  unfold read_source. rewrite Hv. cbn [fst]. rewrite (unreadable_file _ _ Hl). reflexivity.
+Qed.
+
+(* a file reached a second time is skipped with a warning, and nothing is ever opened twice *)
+Lemma second_visit fs dir fuel b bs cache p :
+  line_action fs dir b = LInclude p -> In p cache ->
+  read_lines fs dir fuel (b :: bs) cache = then_result (ROk [] cache 1) (read_lines fs dir fuel bs).
+Proof.
+  intros Ha Hin. rewrite read_lines_cons. unfold line_result. rewrite Ha.
+  apply existsb_beq_In in Hin. rewrite Hin. reflexivity.
+Qed.
+
+Definition keeps_nodup (rd : list bytes -> list bytes -> rres) : Prop :=
+  forall bufs cache es c w, rd bufs cache = ROk es c w -> NoDup cache -> NoDup c.
+Lemma lines_nodup fs dir fuel : keeps_nodup (nested_of fs dir fuel) -> keeps_nodup (read_lines fs dir fuel).
+Proof.
+  intros Hn bufs. induction bufs as [|b bs IH]; intros cache es c w.
+  - rewrite read_lines_nil. intro H; inversion H; subst; auto.
+  - rewrite read_lines_cons. intro H.
+    apply then_result_ok in H as (es1 & c1 & w1 & es2 & w2 & H1 & H2 & _ & _). intro Hnd.
+    assert (Hc1 : NoDup c1).
+    { unfold line_result in H1.
+      destruct (line_action fs dir b) as [[e|]| |path| |]; try discriminate;
+        try (inversion H1; subst; exact Hnd).
+      destruct (existsb (beq path) cache) eqn:Ec; [inversion H1; subst; exact Hnd|].
+      destruct (lookup fs path); [|discriminate].
+      apply (Hn _ _ _ _ _ H1). constructor; auto. apply existsb_beq_nIn; auto. }
+    eapply IH; eauto.
+Qed.
+Lemma read_lines_nodup fs dir fuel : keeps_nodup (read_lines fs dir fuel).
+Proof.
+  induction fuel as [|f IH]; apply lines_nodup; auto.
+  intros bufs cache es c w H. discriminate.
+Qed.
+Lemma read_wcoll_nodup fs file es cache w : read_wcoll fs file = ROk es cache w -> NoDup cache.
+Proof.
+  unfold read_wcoll. destruct (lookup fs file); [|discriminate].
+  intro H. apply (read_lines_nodup _ _ _ _ _ _ _ _ H). constructor; [intros []|constructor].
+Qed.
+
+(* ------------------------------------------------------------------------------------------------ *)
+(* no name is split or truncated: what reaches the host-list parser is a -w word, or the entry of one  *)
+(* whole line of one readable file or of standard input                                               *)
+(* ------------------------------------------------------------------------------------------------ *)
+Theorem read_wcoll_whole_lines fs file es cache w :
+  D10 fs = true -> knows_self fs file -> read_wcoll fs file = ROk es cache w ->
+  forall e, In e es -> exists p c l, lookup fs p = Some c /\ whole_line l c /\ e = entry l /\ e <> [].
+Proof.
+  intros HD Hs Hr e Hin. destruct (read_wcoll_spec fs file HD Hs) as (o & E & S).
+  rewrite Hr in E. destruct o as [[[es' s'] w']|]; cbn [embed] in E; [|discriminate]. inversion E; subst.
+  unfold file_hosts in S. destruct (lookup fs file) as [c0|] eqn:El; [|discriminate].
+  destruct (reads_entries _ _ _ _ _ S _ _ _ _ eq_refl Hin) as (l & A & B & [C|(p & c & C1 & C2)]).
+  - exists file, c0, l. split; auto. split; auto. apply text_lines_whole; auto.
+  - exists p, c, l. split; auto. split; auto. apply text_lines_whole; auto.
+Qed.
+
+Definition from_line (fs : fsys) (stdin : bytes) (e : bytes) : Prop :=
+  exists l, e = entry l /\ e <> [] /\
+            (In l (text_lines stdin) \/ exists p c, lookup fs p = Some c /\ In l (text_lines c)).
+
+Lemma file_hosts_entries fs d s stdin p es seen w e :
+  file_hosts fs d s p (Some (es, seen, w)) -> In e es -> from_line fs stdin e.
+Proof.
+  unfold file_hosts. destruct (lookup fs p) as [c0|] eqn:El; [|discriminate]. intros S Hin.
+  destruct (reads_entries _ _ _ _ _ S _ _ _ _ eq_refl Hin) as (l & A & B & [C|C]); exists l; split; auto; split; auto.
+  right. eauto.
+Qed.
+
+Lemma contributes_entries fs d s stdin w es wn s' e :
+  contributes fs d s stdin w (Some (es, wn)) s' -> In e es ->
+  source_of w = SHosts e \/ from_line fs stdin e.
+Proof.
+  intros H Hin. inversion H; subst.
+  - destruct Hin as [<-|[]]. left; auto.
+  - destruct Hin.
+  - right. destruct o as [[[es' seen] w']|]; cbn [given] in *; [|discriminate].
+    match goal with A : Some _ = Some _ |- _ => inversion A; subst end. eapply file_hosts_entries; eauto.
+  - right. destruct o as [[[es' seen] w']|]; cbn [given] in *; [|discriminate].
+    match goal with A : Some _ = Some _ |- _ => inversion A; subst end.
+    match goal with S : stream_hosts _ _ _ |- _ =>
+      destruct (reads_entries _ _ _ _ _ S _ _ _ _ eq_refl Hin) as (l & A & B & C) end.
+    exists l. auto.
+  - destruct o as [[[es' seen] w']|]; cbn [given] in *; [|discriminate].
+    match goal with A : Some _ = Some _ |- _ => inversion A; subst end. destruct Hin.
+  - destruct o as [[[es' seen] w']|]; cbn [given] in *; [|discriminate].
+    match goal with A : Some _ = Some _ |- _ => inversion A; subst end. destruct Hin.
+Qed.
+
+Lemma contributes_stdin fs d s stdin w r s' : contributes fs d s stdin w r s' -> s' = stdin \/ s' = [].
+Proof. intro H; inversion H; subst; auto. Qed.
+
+Lemma from_line_stdin fs stdin s' e : s' = stdin \/ s' = [] -> from_line fs s' e -> from_line fs stdin e.
+Proof.
+  intros [->| ->]; auto. intros (l & A & B & [C|C]); [destruct C|]. exists l. auto.
+Qed.
+
+Lemma join_some a r es w : join a r = Some (es, w) -> exists es2 w2, r = Some (es2, w2) /\ es = fst a ++ es2.
+Proof. destruct r as [[es2 w2]|]; cbn; [|discriminate]. intro H; inversion H; subst. eauto. Qed.
+
+Lemma assembled_entries fs d s stdin ws r s' : assembled fs d s stdin ws r s' ->
+  forall es wn e, r = Some (es, wn) -> In e es ->
+    (exists w, In w ws /\ source_of w = SHosts e) \/ from_line fs stdin e.
+Proof.
+  induction 1; intros es wn e Hr Hin.
+  - inversion Hr; subst. destruct Hin.
+  - apply join_some in Hr as (es2 & w2 & -> & ->). destruct a as [es1 w1]. cbn [fst] in Hin.
+    apply in_app_or in Hin as [Hin|Hin].
+    + destruct (contributes_entries _ _ _ _ _ _ _ _ _ H Hin) as [A|A]; [left; exists w; split; [left|]; auto|right; auto].
+    + destruct (IHassembled _ _ _ eq_refl Hin) as [(w' & A & B)|A].
+      * left. exists w'. split; [right|]; auto.
+      * right. eapply from_line_stdin; [eapply contributes_stdin; eauto|auto].
+  - discriminate.
+Qed.
+
+Lemma assembled_stdin fs d s stdin ws r s' : assembled fs d s stdin ws r s' -> s' = stdin \/ s' = [].
+Proof.
+  induction 1; auto.
+  - apply contributes_stdin in H. destruct H as [->| ->]; auto.
+    destruct IHassembled as [->| ->]; auto.
+  - eapply contributes_stdin; eauto.
+Qed.
+
+Lemma target_list_entries fs d s stdin wcoll args es wn e :
+  target_list fs d s stdin wcoll args (Some (es, wn)) -> In e es ->
+  (exists w, In w (flat_map words_of args) /\ source_of w = SHosts e) \/ from_line fs stdin e.
+Proof.
+  intros H Hin. inversion H; subst.
+  - eapply assembled_entries; eauto.
+  - eapply assembled_entries; eauto.
+  - match goal with A : join _ _ = Some _ |- _ => apply join_some in A as (es2 & w2 & -> & ->) end.
+    destruct a as [es1 w1]. cbn [fst] in Hin. apply in_app_or in Hin as [Hin|Hin].
+    + eapply assembled_entries; eauto.
+    + right. match goal with C : contributes _ _ _ _ (94 :: _) _ _ |- _ =>
+        destruct (contributes_entries _ _ _ _ _ _ _ _ _ C Hin) as [A|A] end.
+      * rewrite source_of_caret in A. destruct (beq v [45]); discriminate.
+      * eapply from_line_stdin; [eapply assembled_stdin; eauto|auto].
+Qed.
+
+Theorem assemble_whole_lines fs stdin wcoll args es wn :
+  D10 fs = true -> (forall p, knows_self fs p) -> text_okb stdin = true ->
+  assemble (mkaw fs stdin wcoll) args = AOk es wn ->
+  forall e, In e es ->
+    (exists w, In w (flat_map words_of args) /\ source_of w = SHosts e) \/
+    (exists l c, e = entry l /\ e <> [] /\ whole_line l c /\ (c = stdin \/ exists p, lookup fs p = Some c)).
+Proof.
+  intros HD Hs Ht Ha e Hin. pose proof (assemble_spec fs HD Hs stdin wcoll args Ht) as S. rewrite Ha in S.
+  destruct (target_list_entries _ _ _ _ _ _ _ _ _ S Hin) as [A|(l & A & B & [C|(p & c & C1 & C2)])]; auto; right.
+  - exists l, stdin. split; auto. split; auto. split; [apply text_lines_whole; auto|auto].
+  - exists l, c. split; auto. split; auto. split; [apply text_lines_whole; auto|eauto].
+Qed.
+
+(* the command-line model never runs out of fuel either *)
+Lemma read_source_terminates fs stdin path : fst (read_source fs stdin path) <> RDiverges.
+Proof.
+  unfold read_source. destruct (beq path [45]); cbn [fst];
+    [apply read_stream_terminates|apply read_wcoll_terminates].
+Qed.
+Lemma word_step_terminates fs st w : word_step fs st w <> WDiverges.
+Proof.
+  unfold word_step. destruct (classify_word w); try discriminate.
+  pose proof (read_source_terminates fs (as_stdin st) path) as H.
+  destruct (read_source fs (as_stdin st) path) as [r s']. cbn [fst] in H.
+  destruct r; try discriminate. congruence.
+Qed.
+Lemma run_words_terminates fs ws : forall st, run_words fs st ws <> WDiverges.
+Proof.
+  induction ws as [|w ws IH]; intro st; cbn [run_words]; [discriminate|].
+  pose proof (word_step_terminates fs st w). destruct (word_step fs st w); try discriminate; auto.
+Qed.
+Lemma assemble_terminates W args : assemble W args <> ADiverges.
+Proof.
+  unfold assemble. pose proof (run_words_terminates (aw_fs W) (flat_map arg_words args) (mkast None (aw_stdin W) 0)) as H.
+  destruct (run_words (aw_fs W) (mkast None (aw_stdin W) 0) (flat_map arg_words args)) as [st| | | |]; try discriminate; [|congruence].
+  destruct (as_list st); [discriminate|]. destruct (aw_wcoll W) as [v|]; [|discriminate].
+  pose proof (read_source_terminates (aw_fs W) (as_stdin st) v).
+  destruct (fst (read_source (aw_fs W) (as_stdin st) v)); try discriminate. congruence.
+Qed.
